@@ -1,43 +1,49 @@
-(* C04 (handler level, equivocation) -- who can be named by an honest party's own verification failure.
+(* C04 (handler level, equivocation) -- who can be named by an honest party's abort.
    Only statements, each closed by [exact] of a lemma proved in Proofs/SystemProofs.v.
 
-   Finding (defect D7): with the handler as it is, the view-digest comparison (checkBroadcastHash) is only
-   evaluated in finalize(), AFTER verifyBroadcastMessage/verifyMessage of the arriving message.  If the
-   validity of a round-(k+1) message depends on the round-k view (FROST sign round 3, CMP sign round 4),
-   an equivocating E makes honest A reject honest B's authentic message and NAME B.
-   [m_valid] is an oracle in the model; "validity depends on the view" is expressed by the recipient-side
-   oracle [view_dependent_valid]: a round-(k+1) message is valid at a recipient iff the digest it carries
-   equals the recipient's digest of round k. *)
+   History: at the pinned commit the view-digest comparison was made only in finalize(), AFTER
+   verification of the arriving message, so an equivocating E made honest A reject honest B's authentic
+   message and NAME B (defect D7; the model of that handler refuted this file's main theorem by the run
+   [blame_run] below).  The handler now compares the attached view digest right before a message is
+   processed (verdict VHash => abort without culprit); Model/Handler.v models the repaired handler and
+   the theorem holds.  No model of the old verification order is kept, so there is no _v0 statement.
+
+   VALIDITY ASSUMPTION of C04_handler_blame_sound (view-dependent validity): a message of an honest
+   party that is valid as sent (m_valid = true) is accepted by the recipient's round whenever the view
+   digest attached to it equals the recipient's own digest of the previous round (same_view) -- i.e.
+   honest messages may be rejected ONLY because the two parties saw different broadcasts.  The oracle
+   [view_dependent_valid] of Model/System.v (valid iff flagged valid and same view) is the weakest such
+   oracle.  [m_valid]/[validity] are oracles in the model; soundness of the rounds' own checks is not
+   part of this theorem. *)
 From Coq Require Import List NArith ZArith Bool Arith.
 From MPS Require Import Model.Handler Model.System Proofs.SystemProofs.
 Import ListNotations.
 
-(* REFUTED: "an honest party is never named".  n = 3, A = 0, B = 1 honest, E = 2; shape: rounds 2 and 3 are
-   broadcast rounds.  E sends fingerprint 111 to A and 222 to B as its round-2 broadcast. *)
-Theorem C04_handler_blame_refuted :
-  authenticb 2 (equiv_sched ++ [Deliver 0 1; Deliver 1 1]) = true
-  /\ In (0, blame_msgB) (s_net blame_run0)
-  /\ m_from blame_msgB = 1 /\ m_round blame_msgB = 3 /\ m_valid blame_msgB = true
-  /\ blame_msgB = msg_of_out fp_cantor (s_h blame_run0 1) (mkOut None 3 true (m_bv blame_msgB))
-  /\ In (mkOut None 3 true (m_bv blame_msgB)) (h_out (s_h blame_run0 1))
-  /\ stored_fp (s_h blame_run0 0) 2 2 <> stored_fp (s_h blame_run0 1) 2 2
-  /\ view_dependent_valid (s_h blame_run0 0) blame_msgB = false
-  /\ view_dependent_valid (s_h blame_run0 1) blame_msgB = true
-  /\ check_broadcast_hash (store (s_h blame_run0 0) blame_msgB) = false
-  /\ h_err (s_h blame_run 0) = Some ([1], EVerify)
-  /\ h_err (s_h blame_run 1) = Some ([0], EVerify).
-Proof. exact handler_blame_refuted. Qed.
-Print Assumptions C04_handler_blame_refuted.
+(* any n, any shape, any oracles satisfying the assumption, corrupted E with arbitrary injections, any
+   schedule: whatever error ANY party ends with, EVerify names at most E and EBroadcastHash names nobody *)
+Theorem C04_handler_blame_sound :
+  forall (view_hash : nat -> list N -> N) (fp : party -> bool -> option party -> nat -> N)
+         (validity : hstate -> msg -> bool) (n : nat) (ssid proto : N) (sh : shape) (E : party),
+  (forall s m, m_from m <> E -> m_valid m = true -> same_view s m = true -> validity s m = true) ->
+  forall (sched : list sched_ev) (A : party) (c : list party) (k : errkind),
+  authenticb E sched = true ->
+  h_err (s_h (run view_hash fp validity n (init_sys view_hash fp n ssid proto sh) sched) A) = Some (c, k) ->
+  (k = EVerify -> incl c [E]) /\ (k = EBroadcastHash -> c = []).
+Proof. exact blame_sound. Qed.
+Print Assumptions C04_handler_blame_sound.
 
-(* the same equivocation when validity does not depend on the view: the comparison in finalize fires and
-   nobody is named *)
-Theorem C04_equivocation_without_view_dependence :
-  h_err (s_h blame_run_keep 0) = Some ([], EBroadcastHash).
-Proof. exact equivocation_without_view_dependence. Qed.
+(* the instance for the view-dependent oracle of Model/System.v *)
+Theorem C04_handler_blame_sound_view_dependent :
+  forall (view_hash : nat -> list N -> N) (fp : party -> bool -> option party -> nat -> N)
+         (n : nat) (ssid proto : N) (sh : shape) (E : party)
+         (sched : list sched_ev) (A : party) (c : list party) (k : errkind),
+  authenticb E sched = true ->
+  h_err (s_h (run view_hash fp view_dependent_valid n (init_sys view_hash fp n ssid proto sh) sched) A) = Some (c, k) ->
+  (k = EVerify -> incl c [E]) /\ (k = EBroadcastHash -> c = []).
+Proof. exact blame_sound_view_dependent. Qed.
+Print Assumptions C04_handler_blame_sound_view_dependent.
 
-(* SOUND under the hypothesis that the defect violates: if no valid message of an honest party is ever
-   rejected by a recipient's round (validity oracle), then for ANY n, shape, schedule with arbitrary
-   injections by E, any party's EVerify culprits are within {E}. *)
+(* special case (stronger assumption): the oracle never rejects a valid message of an honest party *)
 Theorem C04_handler_blame_sound_given_valid :
   forall (view_hash : nat -> list N -> N) (fp : party -> bool -> option party -> nat -> N)
          (validity : hstate -> msg -> bool) (n : nat) (ssid proto : N) (sh : shape) (E : party),
@@ -47,19 +53,50 @@ Theorem C04_handler_blame_sound_given_valid :
   h_err (s_h (run view_hash fp validity n (init_sys view_hash fp n ssid proto sh) sched) A) = Some (c, EVerify) ->
   incl c [E].
 Proof. exact blame_sound_given_valid. Qed.
-Print Assumptions C04_handler_blame_sound_given_valid.
+
+(* the run that refuted the theorem for the old handler: n = 3, A = 0, B = 1 honest, E = 2; rounds 2 and 3
+   are broadcast rounds; E sends fingerprint 111 to A and 222 to B as its round-2 broadcast; then A gets
+   B's authentic round-3 broadcast (not valid AT A, views differ) and vice versa.  Now: nobody is named. *)
+Theorem C04_equivocation_names_nobody :
+  authenticb 2 (equiv_sched ++ [Deliver 0 1; Deliver 1 1]) = true
+  /\ In (0, blame_msgB) (s_net blame_run0)
+  /\ m_from blame_msgB = 1 /\ m_round blame_msgB = 3 /\ m_valid blame_msgB = true
+  /\ blame_msgB = msg_of_out fp_cantor (s_h blame_run0 1) (mkOut None 3 true (m_bv blame_msgB))
+  /\ In (mkOut None 3 true (m_bv blame_msgB)) (h_out (s_h blame_run0 1))
+  /\ stored_fp (s_h blame_run0 0) 2 2 <> stored_fp (s_h blame_run0 1) 2 2
+  /\ view_dependent_valid (s_h blame_run0 0) blame_msgB = false
+  /\ view_dependent_valid (s_h blame_run0 1) blame_msgB = true
+  /\ same_view (s_h blame_run0 0) blame_msgB = false
+  /\ h_err (s_h blame_run 0) = Some ([], EBroadcastHash)
+  /\ h_err (s_h blame_run 1) = Some ([], EBroadcastHash).
+Proof. exact equivocation_names_nobody. Qed.
+Print Assumptions C04_equivocation_names_nobody.
+
+(* same when B's message was queued before A completed round 2 (examined in finalize) *)
+Theorem C04_equivocation_names_nobody_queued :
+  authenticb 2 early_sched = true /\ h_err (s_h early_run 0) = Some ([], EBroadcastHash).
+Proof. exact equivocation_names_nobody_queued. Qed.
+
+(* and when validity does not depend on the view: the comparison in finalize fires *)
+Theorem C04_equivocation_without_view_dependence :
+  h_err (s_h blame_run_keep 0) = Some ([], EBroadcastHash).
+Proof. exact equivocation_without_view_dependence. Qed.
 
 (* ---- Examples (non-vacuity) ---- *)
-(* keep_valid satisfies the hypothesis *)
-Example C04_keep_valid_ok : forall E s m, m_from m <> E -> m_valid m = true -> keep_valid s m = true.
-Proof. intros E s m _ H. exact H. Qed.
-(* view_dependent_valid does NOT (that is the defect): B's valid message is rejected at A *)
-Example C04_view_dependent_violates :
+(* both oracles of Model/System.v satisfy the validity assumption *)
+Example C04_view_dependent_valid_ok : forall E s m,
+  m_from m <> E -> m_valid m = true -> same_view s m = true -> view_dependent_valid s m = true.
+Proof. exact view_dependent_valid_ok. Qed.
+Example C04_keep_valid_ok : forall E s m,
+  m_from m <> E -> m_valid m = true -> same_view s m = true -> keep_valid s m = true.
+Proof. intros E s m _ H _. exact H. Qed.
+(* the assumption is not "honest messages are always valid": B's valid message IS rejected at A *)
+Example C04_view_dependent_rejects_honest :
   m_from blame_msgB <> 2 /\ m_valid blame_msgB = true /\ view_dependent_valid (s_h blame_run0 0) blame_msgB = false.
 Proof. vm_compute. repeat split; try reflexivity; discriminate. Qed.
-(* a run in which the conclusion is non-trivial: E injects an invalid round-2 broadcast, A names E *)
+(* a run in which the EVerify conclusion is non-trivial: E injects an invalid round-2 broadcast, A names E *)
 Example C04_invalid_message_of_E_names_E :
-  let st := run vh_pos fp_cantor keep_valid 3 (init_sys vh_pos fp_cantor 3 7 9 shape_bb3)
+  let st := run vh_pos fp_cantor view_dependent_valid 3 (init_sys vh_pos fp_cantor 3 7 9 shape_bb3)
                 [Inject 0 (mkMsg 7 9 2 None 2 true true 0 111 false)] in
   h_err (s_h st 0) = Some ([2], EVerify).
 Proof. vm_compute. reflexivity. Qed.
